@@ -271,6 +271,13 @@ class ExprMixin:
             x, y, k = self.num2(a, b, st)
             r = {ast.Add: x + y, ast.Sub: x - y, ast.Mult: x * y}[type(op)]
             return Sc(r, INT if k == 'int' else REAL)
+        if isinstance(op, ast.Pow) and isinstance(b, PyConst) and isinstance(b.v, int) and 0 <= b.v <= 4:
+            # x ** small constant: repeated product (int stays int)
+            x, k = self.num(a, st)
+            r = z3.IntVal(1) if k == 'int' else z3.RealVal(1)
+            for _ in range(b.v):
+                r = r * x
+            return Sc(r, INT if k == 'int' else REAL)
         if isinstance(op, ast.Div):
             x, y, k = self.num2(a, b, st)
             if k == 'int':
